@@ -119,6 +119,7 @@ type Exec struct {
 	randDraws     []randDraw
 	bytesEqHook   func(a, b SliceV) *Term
 	randInts      []*Term
+	randIntFail   []*Term // reach ∧ failed, per crypto/rand.Int call
 	cur           *Term // reach condition of the instruction being executed
 	modes         []*contractMode
 	summariesUsed map[string]bool
